@@ -47,7 +47,8 @@ def generate(rng, i, tier):
         ncol = rng.randint(2, 4)
         picks = [rng.randrange(len(HEADER_POOL)) if rng.random() < 0.6 else 0 for _ in range(ncol - 1)]
         hdr = ["id"] + [HEADER_POOL[p].format(c + 1) for c, p in enumerate(picks)]
-        rows = gen.gen_rows(rng, hdr=hdr, nasty=rng.random() < 0.3)
+        # (cells that make date parsing emit Python warnings: whether those are errors is process-global state)
+        rows = gen.gen_rows(rng, hdr=hdr, nasty=rng.random() < 0.3, extra_cells=["2024-03-05 10:30 PST", "2024-01-01", "12/31/2024 7pm EST", "1 Jan 2024 09:00 XYZ"])
         files.append({"rows": rows, "classes": sorted({NASTY_CLASS[p] for p in picks}), "dialect": rng.choice([[",", '"']] * 3 + [[";", '"'], ["|", "'"]])})
     njobs = rng.randint(2, 6)
     jobs = []
@@ -64,7 +65,7 @@ def generate(rng, i, tier):
         else:
             m = gen.gen_member(rng, ["id"] + [str(c) for c in range(1, ncol)], len(files[fi]["rows"]), None, max_comps=4, zoo_p=0.6, zoo_pool=gen.ZOO_SAFE)
         progs.append(m)
-        kind = rng.choice(["direct", "via", "via", "named", "via_shared", "via_shared"])
+        kind = rng.choice(["direct", "via", "via", "named", "via_shared", "via_shared", "chain"])
         jobs.append(
             {
                 "kind": kind,
@@ -162,6 +163,21 @@ def run_job(job, jn, dialects):
                     cp.fast_forward(text)
                     lines = None
                 return ops.path_state(cp, lines=lines, printouts=tp.lines)
+            if job["kind"] == "chain":
+                # a two-member serial run whose second member reads the first one's data.csv (every run's data file has that basename)
+                cs = CsvPaths(delimiter=delim, quotechar=quote)
+                name = f"f{job['file']}"
+                cs.file_manager.add_named_file(name=name, path=path)
+                first = {"id": "c0", "scan": "*", "comps": ["yes()"]}
+                second = dict(m, id="c1", modes={"source-mode": "preceding"})
+                cs.paths_manager.add_named_paths(name="gc", paths=[gen.render(first), gen.render(second)])
+                ops.run_group(cs, "collect_paths", "gc", fname=name)
+                out = {}
+                for r in cs.results_manager.get_named_results("gc"):
+                    st = ops.path_state(r.csvpath, lines=ops.result_lines(r), printouts=r.printouts, errors=r.errors)
+                    for k2, v2 in st.items():
+                        out[f"{r.identity_or_index}.{k2}"] = v2
+                return out
             cs = CsvPaths(delimiter=delim, quotechar=quote)
             name = f"f{job['file']}"
             cs.file_manager.add_named_file(name=name, path=path)
@@ -289,6 +305,7 @@ def execute(sc):
         out.probe("header cell starting with a quote", "leading_quote" in classes)
         out.probe("header cell with a newline", "newline" in classes)
         out.probe("two jobs through one shared CsvPaths over the same file", any(a["kind"] == b["kind"] == "via_shared" and a["file"] == b["file"] for x, a in enumerate(jobs) for b in jobs[x + 1 :]))
+        out.probe("two chain jobs (source-mode preceding) over different files in one process", len({j["file"] for j in jobs if j["kind"] == "chain"}) > 1)
         out.probe("exact repeat of a job", any(jobs[a] == jobs[b] for a in range(len(jobs)) for b in range(a + 1, len(jobs))))
         out.extra["header_classes"] = classes
         out.log(hist, len(out.violations))
